@@ -17,6 +17,9 @@ modelled. The reserved-key tables `definition(file_format, key)` are a parameter
 The writer emits `IDX=n` (after Description / URL, before the other fields) for INFO / FILTER /
 FORMAT / contig maps that carry one (/repo commit f23eb11), and the FORMAT `Number` parser accepts
 `LA LR LG P M`, which the writer emits (commit 523621b of the C09 round; was: rejected).
+
+The contig writer is described AS FIXED by fixes/vcf-contig-url-unquoted.diff (whole-header
+extension): `md5` / `URL` values that cannot be read back unquoted are written quoted.
 -/
 namespace Noodles.Vcf.Header
 open Noodles.Text (splitOn join parseNat printNat)
@@ -186,9 +189,22 @@ def writeOptRaw (k : Bytes) : Option Bytes → Bytes
   | none => []
   | some v => rawField k v
 
+/-- `write_raw_or_string_field::requires_quotes` (fix `vcf-contig-url-unquoted`): a value that
+`parse_raw_string` would not read back — it contains `,` or `>`, or starts with `"` -/
+def needsQuote (v : Bytes) : Bool := v.head? == some 34 || v.contains 44 || v.contains 62
+
+/-- `write_raw_or_string_field`: unquoted when that reads back, otherwise a quoted string -/
+def autoField (k v : Bytes) : Bytes := if needsQuote v then strField k v else rawField k v
+
+def writeOptAuto (k : Bytes) : Option Bytes → Bytes
+  | none => []
+  | some v => autoField k v
+
+/-- `write_contig`; `md5` and `URL` through `write_raw_or_string_field` (was: always unquoted, so
+that `URL=http://h/a,b` was written as a line the parser rejects) -/
 def writeContigL (l : ContigL) : Bytes :=
   mapLine K_CONTIG ID l.id
-    (writeOptRaw LENGTH (l.length.map printNat) ++ writeOptRaw MD5 l.md5 ++ writeOptRaw URL l.url ++
+    (writeOptRaw LENGTH (l.length.map printNat) ++ writeOptAuto MD5 l.md5 ++ writeOptAuto URL l.url ++
      writeIdx l.idx ++ writeOthers l.others)
 
 /-- `write_meta`: `Number`, `Type`, `Values` are written unquoted -/
@@ -575,10 +591,16 @@ def parsePartial (D : DefTables) (p : PState) (line : Bytes) : Except HErr PStat
         | some o => .ok ⟨.ready, { h with others := o }⟩
         | none => .error .invalidRecordValue
 
+/-- the pieces between LFs that start with `#`, up to the first one that does not; `read_line` pops
+a CR only in front of an LF it has popped, so the last piece (the text after the last LF) keeps it -/
+def headerLinesAux : List Bytes → List Bytes
+  | [] => []
+  | [l] => (match l with | 35 :: _ => [l] | _ => [])
+  | l :: r => (match l with | 35 :: _ => stripCr l :: headerLinesAux r | _ => [])
+
 /-- `io/reader/header.rs`: the lines that start with `#`, up to the first line that does not;
 LF-terminated, a CR before the LF is dropped -/
-def headerLines (text : Bytes) : List Bytes :=
-  ((splitOn 10 text).takeWhile fun l => match l with | 35 :: _ => true | _ => false).map stripCr
+def headerLines (text : Bytes) : List Bytes := headerLinesAux (splitOn 10 text)
 
 def parseLines (D : DefTables) : PState → List Bytes → Except HErr PState
   | p, [] => .ok p
